@@ -25,16 +25,21 @@ import (
 )
 
 type gcase struct {
-	Kind   string `json:"kind"`
-	Len    int    `json:"length"`
-	At     int    `json:"position"`
-	End    string `json:"ending,omitempty"`
-	Prev   bool   `json:"key_had_a_value"`
-	Via    string `json:"via,omitempty"`
-	Code   string `json:"server_answer,omitempty"`
-	Wrap   string `json:"wrapping,omitempty"`
+	Kind     string `json:"kind"`
+	Len      int    `json:"length"`
+	At       int    `json:"position"`
+	End      string `json:"ending,omitempty"`
+	Prev     bool   `json:"key_had_a_value"`
+	Via      string `json:"via,omitempty"`
+	Code     string `json:"server_answer,omitempty"`
+	Wrap     string `json:"wrapping,omitempty"`
 	Sentinel string `json:"sentinel,omitempty"`
+	// Settled: the fault comes after the server had time to take in what was sent before it (the
+	// unsettled variant leaves the order of data and abort on the server to the transport)
+	Settled bool `json:"settled,omitempty"`
 }
+
+const settle = 40 * time.Millisecond
 
 func gm(what, sig string) *enum.Mismatch { return &enum.Mismatch{What: what, Sig: "grpc-fault|" + sig} }
 
@@ -46,11 +51,15 @@ type failingReader struct {
 	calls  int
 	failAt int
 	cancel func()
+	settle bool
 }
 
 func (r *failingReader) Read(p []byte) (int, error) {
 	r.calls++
 	if r.calls == r.failAt {
+		if r.settle {
+			time.Sleep(settle)
+		}
 		if r.cancel != nil {
 			r.cancel()
 		} else {
@@ -135,6 +144,9 @@ func runUpload(c gcase) *enum.Outcome {
 			err = stream.Send(&store.SetFileRequest{Data: &store.SetFileRequest_Chunk{Chunk: chunk}})
 			sent = append(sent, chunk...)
 		}
+		if c.Settled && c.End != "half-close" {
+			time.Sleep(settle)
+		}
 		switch c.End {
 		case "cancel":
 			cancel()
@@ -152,13 +164,13 @@ func runUpload(c gcase) *enum.Outcome {
 		cancel()
 		conn.Close()
 	case "reader-fails":
-		fr := &failingReader{data: content, failAt: c.At}
+		fr := &failingReader{data: content, failAt: c.At, settle: c.Settled}
 		opErr = db.SetReader(ctx, fkey, fr)
 		success = opErr == nil
 		sent = content
 	case "ctx-cancelled":
 		cctx, cancel := context.WithCancel(ctx)
-		fr := &failingReader{data: content, failAt: c.At, cancel: cancel}
+		fr := &failingReader{data: content, failAt: c.At, cancel: cancel, settle: c.Settled}
 		opErr = db.SetReader(cctx, fkey, fr)
 		cancel()
 		success = opErr == nil
@@ -392,11 +404,18 @@ func init() {
 				for at := 0; at <= nchunks; at++ {
 					for _, end := range []string{"cancel", "close-conn", "half-close"} {
 						cases = append(cases, gcase{Kind: "raw-upload", Len: ln, At: at, End: end, Prev: prev})
+						if end != "half-close" && at > 0 {
+							cases = append(cases, gcase{Kind: "raw-upload", Len: ln, At: at, End: end, Prev: prev, Settled: true})
+						}
 					}
 				}
 				for at := 1; at <= nchunks+1; at++ {
 					cases = append(cases, gcase{Kind: "reader-fails", Len: ln, At: at, Prev: prev})
 					cases = append(cases, gcase{Kind: "ctx-cancelled", Len: ln, At: at, Prev: prev})
+					if at > 1 {
+						cases = append(cases, gcase{Kind: "reader-fails", Len: ln, At: at, Prev: prev, Settled: true})
+						cases = append(cases, gcase{Kind: "ctx-cancelled", Len: ln, At: at, Prev: prev, Settled: true})
+					}
 				}
 			}
 		}
